@@ -873,7 +873,7 @@ func genOther(mode string, r *rand.Rand, n int, emit func(core.Case)) {
 		genPair(r, n, emit)
 	case "pairschema":
 		for k := range pairs() {
-			emit(core.Case{"op": "pairschema", "pair": k})
+			emit(core.Case{"op": "pairschema", "pair": k, "strict": strictPair(k)})
 		}
 	default:
 		harnessBug("unknown DESC_GEN mode %q", mode)
